@@ -143,6 +143,27 @@ pub fn check(v: &View, vd: &mut Verdict) {
                         }) => {}
                     other => vd.fail("C06/registry_returns_dead/from_registry", format!("T died at {d}; from_registry at {} returned {other:?}", o.begin)),
                 },
+                // setup() after the death must have respawned the service: the next registry operation (if
+                // nothing else touched the registry in between) finds a running instance
+                (RegOp::Setup, Some(_)) => {
+                    if let Some(e1) = o.end {
+                        let all: Vec<&OpRec> = v.ops.iter().filter(|p| matches!(p.what, OpWhat::Reg(_, k) if k == kind)).collect();
+                        if let Some(o2) = all.iter().filter(|p| p.begin > e1).min_by_key(|p| p.begin) {
+                            let quiet = !all.iter().any(|p| (p.client, p.op) != (o.client, o.op) && (p.client, p.op) != (o2.client, o2.op) && p.begin < o2.end_or_max() && p.end_or_max() > d);
+                            if quiet {
+                                match (&o2.what, &o2.res) {
+                                    (OpWhat::Reg(RegOp::AlreadyRunning, _), Some(OpRes::Reg(RegRes::Running(r)))) if *r != Some(true) => {
+                                        vd.fail("C06/setup_did_not_respawn", format!("T died at {d}; setup() completed at {e1}, yet already_running at {} says {r:?}", o2.begin))
+                                    }
+                                    (OpWhat::Reg(RegOp::TryFromRegistry, _), Some(OpRes::Reg(RegRes::TryGot(None)))) => {
+                                        vd.fail("C06/setup_did_not_respawn", format!("T died at {d}; setup() completed at {e1}, yet try_from_registry at {} found nothing", o2.begin))
+                                    }
+                                    _ => {}
+                                }
+                            }
+                        }
+                    }
+                }
                 _ => {}
             }
             break;
